@@ -1,0 +1,52 @@
+//go:build verif
+
+// Licensed to LinDB under one or more contributor
+// license agreements. See the NOTICE file distributed with
+// this work for additional information regarding copyright
+// ownership. LinDB licenses this file to you under
+// the Apache License, Version 2.0 (the "License"); you may
+// not use this file except in compliance with the License.
+// You may obtain a copy of the License at
+//
+//     http://www.apache.org/licenses/LICENSE-2.0
+//
+// Unless required by applicable law or agreed to in writing,
+// software distributed under the License is distributed on an
+// "AS IS" BASIS, WITHOUT WARRANTIES OR CONDITIONS OF ANY
+// KIND, either express or implied.  See the License for the
+// specific language governing permissions and limitations
+// under the License.
+
+package tsdb
+
+import (
+	"context"
+
+	"github.com/lindb/lindb/models"
+)
+
+// This file only exists with the "verif" build tag. It lets the external
+// verification harness run one flush job of the data flush checker
+// (doFlush -> flushShard: metadata, shard index, family data) synchronously
+// instead of through the checker's timer and worker goroutines; it changes no behaviour.
+
+// VerifDoFlush builds the flush request for the given families of one database
+// (what dataFlushChecker.check / Database.Flush build) and runs dataFlushChecker.doFlush on it.
+func VerifDoFlush(db Database, families []DataFamily) {
+	fc := newDataFlushChecker(context.Background()).(*dataFlushChecker)
+	request := &flushRequest{
+		db:     db,
+		shards: make(map[models.ShardID]*flushShard),
+	}
+	for _, family := range families {
+		shard := family.Shard()
+		shardReq, ok := request.shards[shard.ShardID()]
+		if !ok {
+			shardReq = &flushShard{shard: shard}
+			request.shards[shard.ShardID()] = shardReq
+		}
+		shardReq.families = append(shardReq.families, family)
+	}
+	fc.flushInFlight.Inc()
+	fc.doFlush(request)
+}
